@@ -460,3 +460,48 @@ def printed_rule(m, rid, exceptions=None):
                    "which holds content in that pattern: that part of the statement is missing from the regenerated source"
                    % (c["name"], tuple("None" if b else "x" for b in pat), A.text(stmt)[:60], i), m.loc(pf, stmt))
     return r
+
+
+# =================================================================================================
+# constant indices into self.items outside the printer stay within the arity the matcher returns
+# =================================================================================================
+def accessor_index_rule(m, rid):
+    from sa import shapes as SH
+    from sa.callgraph import CallGraph
+    r = RuleResult(rid, "every constant index into self.items / self.children in the methods of a node class (name and label accessors, "
+                        "symbol-table hooks) lies within the smallest arity its matcher returns")
+    r.floor = 120
+    S = SH.Shapes(m, CallGraph(m))
+    base, block = m.key("Base", UTILS), m.key("BlockBase", UTILS)
+    for k in sorted(m.classes):
+        c = m.classes[k]
+        if not m.issub(k, base) or m.issub(k, block):
+            continue
+        mf = m.method(k, "match")
+        if mf is None or not (m.method_owner(k, "init") or "").endswith(":Base"):
+            continue
+        ss = S.of_func(mf)
+        ar = ss.arities()
+        if not ar or ss.open:
+            continue
+        amin = min(ar)
+        seen = set()
+        for kk in c["mro"]:
+            for name in m.classes.get(kk, {}).get("own", {}):
+                if name in ("match", "tostr", "init", "__new__") or name in seen:
+                    continue
+                seen.add(name)
+                g = m.method(k, name)
+                if g is None:
+                    continue
+                for n in A.body_nodes(g.node):
+                    if isinstance(n, ast.Subscript) and A.text(n.value) in ("self.items", "self.children") \
+                            and isinstance(n.slice, ast.Constant) and isinstance(n.slice.value, int):
+                        r.instances += 1
+                        idx = n.slice.value
+                        ok = idx < amin if idx >= 0 else -idx <= amin
+                        r.ob(ok, "%s.%s: `%s` within arity %s" % (c["name"], name, A.text(n), sorted(ar)) if r.instances % 25 == 0 else None)
+                        if not ok:
+                            r.fail("%s.%s|index|%d" % (c["name"], name, idx), "%s.%s reads `%s` but %s.match can return a tuple of only %d element(s): "
+                                   "IndexError when the accessor is used on such a node" % (c["name"], name, A.text(n), c["name"], amin), m.loc(g, n))
+    return r
